@@ -124,13 +124,23 @@ def extract():
         groups = re.findall(r'alt\(\(((?:\s*tag\("[^"]+"\),?)+)\s*\)\)\.map\(\|_\| (\w+)::(\w+)\)', b)
         return [(ctor, re.findall(r'tag\("([^"]+)"\)', g)) for g, _ty, ctor in groups] or None
     put('sort_mode_tags', tags_of('sort_mode'))
-    put('fields_mode_tags', tags_of('fields_mode'))
+    # fields_mode: alt(( alt((tag("+"), tag("only").terminated(peek(multispace1)), ...)).map(|_| FieldMode::Only), ... ))
+    b = fn_body(lang, r'fn fields_mode\(input: Span\) -> IResult<Span, \w+> \{')
+    fm = None
+    if b:
+        groups = re.findall(r'alt\(\(((?:\s*tag\("[^"]+"\)(?:\.terminated\(peek\(multispace1\)\))?,?)+)\s*\)\)\s*\.map\(\|_\| (\w+)::(\w+)\)', b)
+        fm = [(ctor, [(t, bool(w)) for t, w in re.findall(r'tag\("([^"]+)"\)(\.terminated\(peek\(multispace1\)\))?', g)]) for g, _ty, ctor in groups] or None
+        if fm and sum(len(ts) for _c, ts in fm) != len(re.findall(r'tag\("', b)):
+            fm = None
+    put('fields_mode_tags', fm)
     b = fn_body(lang, r'fn comp_op\(input: Span\) -> IResult<Span, ComparisonOp> \{')
     put('comp_op_tags', re.findall(r'tag\("([^"]+)"\)\.map\(\|_\| ComparisonOp::(\w+)\)', b or '') or None)
     m = re.search(r'alt\(\(((?:tag\("\w+"\),? ?)+)\)\)\s*\.precedes\(with_pos\(digit1\)\)', lang)
     put('pct_tags', m and re.findall(r'tag\("(\w+)"\)', m.group(1)))
-    m = re.search(r'tag\("(\w+)"\)\s*\.or\(tag\("(\w+)"\)\)\s*\.precedes\(req_single_arg\("the numeric value to find the average of"\)\)', lang)
+    m = re.search(r'(?:tag|word)\("(\w+)"\)\s*\.or\((?:tag|word)\("(\w+)"\)\)\s*\.precedes\(req_single_arg\("the numeric value to find the average of"\)\)', lang)
     put('avg_tags', m and [m.group(1), m.group(2)])
+    # which keywords end at a word boundary: word("..") (tag + peek(not(is_ident)))
+    put('word_keywords', sorted(set(re.findall(r'\bword\("(\w+)"\)', lang))) or None)
     b = fn_body(lang, r'fn duration_fragment\(input: Span\) -> IResult<Span, chrono::Duration> \{')
     sfx = re.findall(r'tag\("(\w+)"\)\.map\(move \|_\| (?:Some\()?chrono::Duration::(\w+)\(amount\)\)?\)', b or '')
     # every alternative of the alt((...)) must have been recognised, otherwise the fragment counts as not located
@@ -179,11 +189,17 @@ def render(facts):
         emit('ellipsis', 'list N', coq_list('%d%%N' % c for c in facts['ellipsis']))
     if 'default_names' in facts:
         emit('default_names', 'list (string * string)', coq_list('(%s, %s)' % (coq_str(a), coq_str(b)) for a, b in facts['default_names']))
+    if 'word_keywords' in facts:
+        emit('word_keywords', 'list string', coq_list(coq_str(x) for x in facts['word_keywords']))
     if 'pct_prefix' in facts:
         emit('pct_prefix', 'string', coq_str(facts['pct_prefix']))
-    for k in ('sort_mode_tags', 'fields_mode_tags'):
+    for k in ('sort_mode_tags',):
         if k in facts:
             emit(k, 'list (string * list string)', coq_list('(%s, %s)' % (coq_str(c), coq_list(coq_str(t) for t in ts)) for c, ts in facts[k]))
+    if 'fields_mode_tags' in facts:
+        # (tag, true) = the tag must be followed by whitespace (peek(multispace1))
+        emit('fields_mode_tags', 'list (string * list (string * bool))',
+             coq_list('(%s, %s)' % (coq_str(c), coq_list('(%s, %s)' % (coq_str(t), 'true' if w else 'false') for t, w in ts)) for c, ts in facts['fields_mode_tags']))
     if 'comp_op_tags' in facts:
         emit('comp_op_tags', 'list (string * string)', coq_list('(%s, %s)' % (coq_str(t), coq_str(c)) for t, c in facts['comp_op_tags']))
     if 'duration_suffixes' in facts:
